@@ -491,7 +491,10 @@ fn exec_real(case: &Value) -> RunResult {
     }
     res.count("real_pipe_writes", feed.len() as u64);
     let src = format!("make i get 0\njasi (i small pass {calls}) start\n  shout(read_line(\"\"))\n  i get i add 1\nend\n");
-    let run = match realos::run_naija(&src, Some(&feed)) {
+    // a plain pipe: read_line asks for varying byte counts, so packet sockets (which cut a packet to
+    // the reader's count) would lose data by themselves; deterministic chunking is the simulation's job
+    let run = realos::run_naija(&src, Some(&feed));
+    let run = match run {
         Ok(r) => r,
         Err(m) => return res.violation("harness", m),
     };
